@@ -61,6 +61,39 @@ def _cvc5(smt2):
         os.unlink(fn)
 
 
+def _consts(t, out, seen, budget=20000):
+    stack = [t]
+    while stack and len(seen) < budget:
+        x = stack.pop()
+        i = x.get_id()
+        if i in seen:
+            continue
+        seen.add(i)
+        if z3.is_app(x):
+            if x.num_args() == 0 and x.decl().kind() == z3.Z3_OP_UNINTERPRETED:
+                out[x.decl().name()] = x
+            else:
+                stack.extend(x.children())
+        elif z3.is_quantifier(x):
+            stack.append(x.body())
+
+
+def havoc_symbols(ob):
+    """havoc constants the goal speaks about: directly, or through the definition (a path fact) of a defined Bool it mentions."""
+    if ob.goal is None:
+        return set()
+    cs, seen = {}, set()
+    _consts(ob.goal, cs, seen)
+    bools = {n for n, c in cs.items() if c.sort() == z3.BoolSort()}
+    if bools:
+        for p in ob.path:
+            pc = {}
+            _consts(p, pc, set(), budget=3000)
+            if bools & set(pc):
+                cs.update(pc)
+    return {n for n in cs if n.startswith('havoc_')}
+
+
 def discharge(ob, extra=(), timeout_ms=None, use_cvc5=True):
     s = z3.Solver()
     s.set('timeout', timeout_ms or Z3_TIMEOUT_MS)
@@ -85,6 +118,12 @@ def discharge(ob, extra=(), timeout_ms=None, use_cvc5=True):
             ob.model = _model_dict(s.model())
         except Exception:
             ob.model = {}
+        hv = havoc_symbols(ob)
+        if hv:
+            # the value an unmodelled call returns is unconstrained in the encoding: a proof over it is sound, a counter-model
+            # through it says nothing about the real callee -> undecided, never a violation
+            ob.verdict = 'unknown'
+            ob.reason = 'counter-model goes through the result of an unmodelled call (%s): inconclusive' % ', '.join(sorted(hv)[:4])
     else:
         ob.verdict = 'unknown'
         ob.reason = ob.reason or ('z3: %s' % s.reason_unknown())
